@@ -20,6 +20,7 @@ EVID = os.path.join(ROOT, "evidence") if REPO == "/repo" else os.path.join(BUILD
 REPLAYS = os.path.join(EVID, "replays")
 NCPU = os.cpu_count() or 4
 GUARD = "MANAGARM_FRIGG_VERIF"
+MAX_CRASHES_PER_SHARD = 6
 PER_FILE_TIMEOUT = int(os.environ.get("VERIF_COQC_TIMEOUT", "900"))
 
 STD_AXIOMS = {  # axioms declared by the standard library itself; allowed if named in the trusted base
@@ -325,7 +326,11 @@ def _run_shard(exe, cases, timeout, args, env):
     """Run one process over `cases`; on a crash/timeout restart after the crashing case."""
     results = {}
     todo = list(cases)
+    crashes = 0
     while todo:
+        if crashes >= MAX_CRASHES_PER_SHARD:
+            # an implementation that crashes/hangs on (almost) every case: the first ones are evidence enough
+            break
         rc, out, err = sh([exe] + list(args), inp=format_cases(todo), timeout=timeout, env=env)
         parsed, order = parse_output(out)
         done = 0
@@ -341,6 +346,7 @@ def _run_shard(exe, cases, timeout, args, env):
         cid, _ = todo[done]
         r = parsed.get(cid, dict(lines=[], oracle=[], ended=False))
         r["crash"] = "rc=%s\n%s" % (rc, err[-6000:])
+        crashes += 1
         results[cid] = r
         todo = todo[done + 1:]
     return results
@@ -354,6 +360,9 @@ class Results(dict):
 def run_cases(exe, cases, shards=None, timeout=600, args=(), env=None):
     """Run all cases through exe in parallel shards. Returns dict id -> result."""
     e = dict(SAN_ENV)
+    # per-case CPU-time watchdog inside the harness (lib/vharness.hpp): short for ordinary script cases, effectively the
+    # shard's wall timeout for runs whose caller announced long-running cases (stress, self-enumeration) by a long timeout
+    e["VH_CASE_CPU_SECONDS"] = str(60 if timeout <= 600 else int(timeout) * 16)
     if env:
         e.update(env)
     shards = shards or min(NCPU, max(1, len(cases) // 8))
